@@ -864,7 +864,9 @@ func (d *ngDrv) apply(o opx) []entry {
 		es = append(es, entry{Op: 1, Args: []int64{sentinel}})
 		d.recv(sentinel, d.sentSeq)
 	}
-	d.recv(sentinel, d.sentSeq+1) // the number missing at the previous tick arrives late
+	if d.sentSeq > 0 {
+		d.recv(sentinel, d.sentSeq-1) // the number missing at the previous tick arrives late
+	}
 	d.sentSeq += 2
 	d.recv(sentinel, d.sentSeq)
 	for _, s := range d.bound {
